@@ -304,7 +304,97 @@ def r02_6(ctx: Ctx) -> None:
                           f"a dereference arm does not re-assign `{var}` from target.stat(): the entry gets the LINK's own modification time instead of the target's")
 
 
+def r02_8(ctx: Ctx, rule: str = "R02.8") -> None:
+    """extraction into the current directory (`extractall()` without a path, the CLI's `x archive.7z`): the destination is None on the
+    whole extraction path.  Every package function that receives it as an argument from _extract / Worker._extract_single either declares
+    what it does with None (a dominating None test) or never dereferences the parameter."""
+    es = ctx.prog.func("py7zr", "Worker._extract_single")
+    ex = shared.szf(ctx, "_extract")
+    n = 0
+    for f, dest in ((es, "path"), (ex, "path")):
+        if dest not in f.params:
+            continue
+        for c in q.calls(f):
+            for i, a in enumerate(c.args):
+                if not (isinstance(a, ast.Name) and a.id == dest):
+                    continue
+                if q.known_not_none(q.facts_at(f, c), a):
+                    continue
+                for tq in shared.targets_of(ctx, f, c):
+                    g = ctx.res._func_by_q(tq)
+                    if g is None or g.module not in ("helpers", "py7zr"):
+                        continue
+                    params = g.params[1:] if g.cls is not None and g.params and g.params[0] in ("self", "cls") else g.params
+                    if i >= len(params):
+                        continue
+                    p = params[i]
+                    n += 1
+                    subj = ast.Name(id=p, ctx=ast.Load())
+                    bad = None
+                    for x in walk(g.node):
+                        if isinstance(x, ast.Attribute) and isinstance(x.value, ast.Name) and x.value.id == p and isinstance(x.ctx, ast.Load):
+                            if not q.known_not_none(q.facts_at(g, x), subj):
+                                bad = x
+                                break
+                    ctx.check(bad is None, rule, g, bad if bad is not None else g.node, f"{g.qname}: parameter '{p}' (the destination, may be None) is dereferenced only behind a None test",
+                              f"{f.qname} passes the destination `{dest}` (None when extracting into the current directory) to {g.qname}, which evaluates `{norm(bad) if bad is not None else ''}` "
+                              "without a None test: extractall() without a path raises AttributeError for the first member that takes this route (every symbolic link), the rest is not extracted",
+                              construct=f"None destination into {g.name}", path=[f.qname, g.qname])
+    ctx.floor(rule, n, 2, "helpers that receive the (possibly None) destination")
+
+
+def r02_9(ctx: Ctx, rule: str = "R02.9") -> None:
+    """the link text stored for a symbolic link is the link's own text.  _find_link_target may re-express it relative to the link's
+    directory only when the text is an ABSOLUTE path that names an archived source (the comparison with the sources' paths is otherwise
+    between a path relative to the link's directory and paths relative to the working directory: a coincidental match rewrites 'a' into
+    '../a').  And `origin` is None for members that did not come from write() (writestr/writef, members of an archive opened for append)."""
+    f = ctx.prog.func("py7zr", "Worker._find_link_target")
+    rel = [c for c in q.calls(f) if dotted(c.func) in ("os.path.relpath",) or attr_tail(c) == "relative_to"]
+    ctx.floor(rule, len(rel), 1, "rewrites of the link text in _find_link_target")
+    for c in rel:
+        facts = q.facts_at(f, c)
+        absolute = any(pol and isinstance(cd, ast.Call) and (dotted(cd.func) in ("os.path.isabs",) or attr_tail(cd) in ("is_absolute", "isabs")) for cd, pol in facts) or \
+            any(pol and isinstance(cd, ast.Call) and attr_tail(cd) == "startswith" and any(isinstance(x, ast.Constant) and x.value == "/" for x in ast.walk(cd)) for cd, pol in facts)
+        ctx.check(absolute, rule, f, c, "the link text is rewritten only when it is an absolute path",
+                  "the link text is re-expressed with relpath whenever it equals the (working-directory relative) path of an archived source: a relative link 'a' inside directory 'd' "
+                  "matches the top-level source 'a' and is stored as '../a', which resolves to a different file after extraction", construct="relpath of relative link text")
+    derefs = [x for x in walk(f.node) if isinstance(x, ast.Attribute) and isinstance(x.value, ast.Attribute) and x.value.attr == "origin" and isinstance(x.ctx, ast.Load)]
+    for x in derefs:
+        ok = q.known_not_none(q.facts_at(f, x), x.value)
+        ctx.check(ok, rule, f, x, "a member's origin is dereferenced only where it is known not to be None",
+                  f"`{norm(x)}`: `origin` is None for members created by writestr()/writef() and for the members of an archive opened in mode 'a'; archiving a tree that contains a "
+                  "symbolic link then raises AttributeError, the link and everything after it are missing from the archive", construct="origin deref")
+
+
+def r02_10(ctx: Ctx, rule: str = "R02.10") -> None:
+    """writeall: the entry of the top directory is left out only when it would have no name ('.', i.e. no arcname given): the test that
+    skips `write(path, arcname)` for a directory consults `arcname`.  Skipping whenever the directory happens to BE the working
+    directory loses the root entry (its mode and time stamp) of `writeall('.', 'pkg')` and an empty directory the process sits in."""
+    f = shared.szf(ctx, "_writeall")
+    cfg = cfg_of(f.node)
+    writes = [c for c in q.calls(f) if attr_tail(c) == "write" and isinstance(c.func.value, ast.Name) and c.func.value.id == "self"]
+    n = 0
+    for c in writes:
+        facts = q.facts_at(f, c)
+        if not any(pol and isinstance(cd, ast.Call) and attr_tail(cd) == "is_dir" for cd, pol in facts):
+            continue
+        n += 1
+        extra = [cd for cd, pol in facts if not (isinstance(cd, ast.Call) and attr_tail(cd) in ("is_dir", "is_file", "is_symlink")) and "dereference" not in norm(cd)]
+        if not extra:
+            ctx.ok(rule, "the directory entry is always written")
+            continue
+        ok = any(any(isinstance(x, ast.Name) and x.id == "arcname" for x in ast.walk(cd)) for cd in extra)
+        ctx.check(ok, rule, f, c, "the directory entry is skipped only when it would be nameless (arcname consulted)",
+                  f"_writeall skips the directory's own entry under `{'; '.join(norm(cd) for cd in extra)}` without looking at the name it would get: with an arcname (or an absolute "
+                  "path) the working directory has a real member name, but its entry - mode, time stamp, or the whole empty directory - is dropped", construct="directory entry skip")
+    if n == 0:
+        ctx.note(f"{rule}: _writeall has no write() for a directory's own entry (R02.5 decides whether directories are archived at all)")
+
+
 def run(ctx: Ctx) -> None:
+    r02_8(ctx)
+    r02_9(ctx)
+    r02_10(ctx)
     r02_6(ctx)
     from . import c07 as _c07, c03 as _c03
     _c07.r07_1(ctx, rule="R02.7")
